@@ -1,5 +1,5 @@
 (* C08 - CTAP1/U2F APDU parsing is total and follows the U2F raw message format. *)
-From Ctap Require Import Base Schema Wire Typed Procs Inst Tables ProcTables Finite FramingP WireP C18P U2fP ObByteTables.
+From Ctap Require Import Base Schema Wire Typed Procs Inst Tables ProcTables Finite FramingP WireP C18P U2fP FrameP ObByteTables.
 Local Open Scope string_scope.
 Local Open Scope Z_scope.
 
@@ -31,6 +31,41 @@ Proof. exact authenticate_fields. Qed.
 Theorem c08_named_instructions_rejected : forall ins, zmem ins iso_named_ins = true -> ins <> 1 /\ ins <> 2 /\ ins <> 3.
 Proof. exact named_ins_not_u2f. Qed.
 
+(* ISO 7816-4 framing: for every header, data field and Le, in every one of the seven encodings (case 1, 2S,
+   3S, 4S with data up to 255 bytes; 2E, 3E, 4E with data up to 65535 bytes), the parser returns exactly the
+   header bytes, the data field and Le ... *)
+Theorem c08_frame_short : forall cla ins p1 p2 data le,
+  0 <= cla < 255 -> blen data <= 255 -> (match le with Some n => 1 <= n <= 256 | None => True end) ->
+  apdu_parse (apdu_build cla ins p1 p2 data le false)
+  = inr {| a_cla := cla; a_ins := ins; a_p1 := p1; a_p2 := p2; a_data := data; a_le := le_val le; a_ext := false |}.
+Proof. exact apdu_roundtrip_short. Qed.
+
+Theorem c08_frame_extended : forall cla ins p1 p2 data le,
+  0 <= cla < 255 -> blen data <= 65535 -> (match le with Some n => 1 <= n <= 65536 | None => True end) ->
+  (data <> [] \/ le <> None) ->
+  apdu_parse (apdu_build cla ins p1 p2 data le true)
+  = inr {| a_cla := cla; a_ins := ins; a_p1 := p1; a_p2 := p2; a_data := data; a_le := le_val le; a_ext := true |}.
+Proof. exact apdu_roundtrip_extended. Qed.
+
+(* ... hence the request obtained from the raw bytes of ANY such APDU is the decision table applied to its
+   class, instruction, P1 and data, whatever P2, Le and the length encoding are *)
+Theorem c08_raw_apdu_decision : forall cla ins p1 p2 data le (ext : bool),
+  0 <= cla < 255 -> 0 <= p1 < 256 ->
+  blen data <= (if ext then 65535 else 255) ->
+  (match le with Some n => 1 <= n <= (if ext then 65536 else 256) | None => True end) ->
+  (ext = true -> data <> [] \/ le <> None) ->
+  match apdu_parse (apdu_build cla ins p1 p2 data le ext) with
+  | inr a => u2f_request_of spec_tables a = u2f_decision cla ins p1 data
+  | inl _ => False
+  end.
+Proof.
+  intros cla ins p1 p2 data le ext Hc Hp Hd Hl Hne. destruct ext.
+  - rewrite (apdu_roundtrip_extended cla ins p1 p2 data le Hc Hd Hl (Hne eq_refl)).
+    apply (u2f_request_of_decision {| a_cla := cla; a_ins := ins; a_p1 := p1; a_p2 := p2; a_data := data; a_le := le_val le; a_ext := true |}). exact Hp.
+  - rewrite (apdu_roundtrip_short cla ins p1 p2 data le Hc Hd Hl).
+    apply (u2f_request_of_decision {| a_cla := cla; a_ins := ins; a_p1 := p1; a_p2 := p2; a_data := data; a_le := le_val le; a_ext := false |}). exact Hp.
+Qed.
+
 (* tie: the control-byte table regenerated from /repo, over all 256 P1 values *)
 Theorem c08_generated_control_table : forallb (fun f => byte_tables_equiv (gen_tables f)) all_feats = true.
 Proof. exact generated_byte_tables. Qed.
@@ -46,3 +81,6 @@ Eval vm_compute in "ASSUMPTIONS c08_register_fields". Print Assumptions c08_regi
 Eval vm_compute in "ASSUMPTIONS c08_authenticate_fields". Print Assumptions c08_authenticate_fields.
 Eval vm_compute in "ASSUMPTIONS c08_named_instructions_rejected". Print Assumptions c08_named_instructions_rejected.
 Eval vm_compute in "ASSUMPTIONS c08_generated_control_table". Print Assumptions c08_generated_control_table.
+Eval vm_compute in "ASSUMPTIONS c08_frame_short". Print Assumptions c08_frame_short.
+Eval vm_compute in "ASSUMPTIONS c08_frame_extended". Print Assumptions c08_frame_extended.
+Eval vm_compute in "ASSUMPTIONS c08_raw_apdu_decision". Print Assumptions c08_raw_apdu_decision.
